@@ -452,7 +452,12 @@ func c19Replaced(c *Ctx, qs []scen.Query, truth []map[string]bool, only []int) (
 					evals++
 					if p := protect(func() { got, lie = c19Result(e, qs[h]) }); p != nil {
 						c.Run.Violate(ev.Violation{Pred: "no-crash", Sig: map[string]any{"query": qs[h].String(), "replaced": rk}, What: fmt.Sprintf("%s panics: %v (%s)", qs[h], p, desc), Replay: replay})
-						break
+						// a leaked lock costs the shim's 5 s wait in every later case: the layer ends here
+						for li, fl := range fls {
+							_ = fl.File.Close()
+							_ = os.Remove(paths[li])
+						}
+						return evals, cases
 					}
 					if lie != "" {
 						c.Run.Violate(ev.Violation{Pred: "returned-rule-truly-matches", Sig: map[string]any{"query": qs[h].String(), "rule": lie, "replaced": rk},
@@ -502,6 +507,7 @@ func c19Heal(c *Ctx, qs []scen.Query, oracle [][]string, only []int) (evals, cas
 			replay := map[string]any{"heal": []int{kind, q1}}
 			if p := protect(func() { c19Result(e, qs[q1]) }); p != nil {
 				c.Run.Violate(ev.Violation{Pred: "no-crash", Sig: map[string]any{"query": qs[q1].String(), "fault": c19FaultKinds[kind]}, What: fmt.Sprintf("%s panics during the fault: %v", qs[q1], p), Replay: replay})
+				return evals, cases
 			}
 			fls[0].File, fls[1].File = orig[0], orig[1]
 			for q2 := range qs {
@@ -512,7 +518,7 @@ func c19Heal(c *Ctx, qs []scen.Query, oracle [][]string, only []int) (evals, cas
 				evals++
 				if p := protect(func() { got, _ = c19Result(e, qs[q2]) }); p != nil {
 					c.Run.Violate(ev.Violation{Pred: "no-crash", Sig: map[string]any{"query": qs[q2].String(), "healed": true}, What: fmt.Sprintf("%s panics after the handles were put back: %v", qs[q2], p), Replay: replay})
-					break
+					return evals, cases
 				}
 				if !eqStrings(got, oracle[q2]) {
 					c.Run.Violate(ev.Violation{Pred: "fault-free-answer", Sig: map[string]any{"query": qs[q2].String(), "asked_during_fault": qs[q1].String(), "fault": c19FaultKinds[kind]},
@@ -805,6 +811,15 @@ func init() {
 			cases += cs
 			mu.Unlock()
 		})
+		if abort.Load() {
+			// a lock leaked on an error path: every further case would wait for it; what was found is reported
+			c.Run.Set("histories", int64(len(hists)))
+			c.Run.Set("fault_cases", cases)
+			c.Run.Set("evaluations", evals)
+			c.Run.Set("distinct_nontrivial", cases)
+			c.Run.Set("exhaustive", false)
+			return
+		}
 		var largeEvals int64
 		largeSizes := []int{100, 1000, 5000, 20000}
 		for _, n := range largeSizes {
